@@ -159,6 +159,7 @@ func c03Seq(rc *RunCtx, user *Actor, step int) {
 	var q *MintQuote
 	name := fmt.Sprintf("s%d.seq", step)
 	order := T.Choose("seq.order", 4)
+	over := T.Pick("seq.over", 3, 1, 1, 1)
 	rc.S.BeginEpisode()
 	rc.S.Go(name, W.Ext, true, func() {
 		a := NewActor(W, name)
@@ -172,6 +173,24 @@ func c03Seq(rc *RunCtx, user *Actor, step int) {
 		if order == 1 {
 			W.LN.Notify(q.Hash)
 			rc.S.Yield(W.Ext, "ext", "after-notify")
+		}
+		if over > 0 {
+			// more than the quoted amount: one sat more, twice the amount, or outputs of real
+			// denominations whose sum wraps around 2^64 to exactly the quoted amount
+			var amts []uint64
+			switch over {
+			case 1:
+				amts = Split(amount + 1)
+			case 2:
+				amts = Split(amount * 2)
+			default:
+				for i := 0; i < 32; i++ {
+					amts = append(amts, uint64(1)<<59)
+				}
+				amts = append(amts, Split(amount)...)
+			}
+			a.Mint("A", q, W.NewOutputs(amts, ks.ID), "")
+			rc.S.Probe(fmt.Sprintf("c03_over_amount_request_%d", over))
 		}
 		a.Mint("A", q, W.NewOutputs(Split(amount), ks.ID), "")
 		if order == 2 {
